@@ -1,5 +1,198 @@
 package world
 
-import "context"
+import (
+	"context"
+	"encoding/json"
+	"fmt"
+	"time"
 
-func (n *Node) bootPeersyncComp(ctx context.Context) {}
+	"github.com/elementsproject/peerswap/policy"
+	"github.com/elementsproject/peerswap/premium"
+	"go.etcd.io/bbolt"
+)
+
+// C28 component simulation: the real PeerSync (poller, handler, guard, store)
+// with the real policy and premium stores, over a stub Lightning; no swap
+// service, no chain watchers (so hours of virtual time are cheap).
+func (n *Node) bootPeersyncComp(ctx context.Context) {
+	w := n.w
+	db, err := bbolt.Open(n.dbPath, 0o600, &bbolt.Options{NoSync: true, NoFreelistSync: true, Timeout: time.Second})
+	if err != nil {
+		w.Infraf("bbolt: %v", err)
+		return
+	}
+	n.db = db
+	pol, err := policy.CreateFromFile(n.policyPath)
+	if err != nil {
+		w.Infraf("policy: %v", err)
+		return
+	}
+	n.Pol = pol
+	ps, err := premium.NewSetting(db)
+	if err != nil {
+		w.Infraf("premium: %v", err)
+		return
+	}
+	n.PS = ps
+	n.Up, n.Recovered = true, true
+	w.Observe(&Obs{Node: n.ID, Inc: n.inc, Kind: "boot.done"})
+	n.startPeersync(ctx, pol, ps)
+}
+
+// ---------------------------------------------------------------------------
+// C28 — peer-sync keeps an accurate, persistent view of peers.
+
+type refPeer struct {
+	version  uint64
+	rate     int64
+	has      bool
+	lastObs  time.Duration
+	lastSeen time.Duration // last time the reference was updated
+}
+
+type monC28 struct {
+	base
+	ref        map[int]*refPeer            // peer -> reference view held by node 0
+	reqSends   map[int][]time.Duration     // request_poll sends to peers unknown at that time
+	startedAt  time.Duration
+	connSince  map[int]time.Duration       // peer -> connected since (for "removed only while disconnected")
+	pending    []c28pending
+}
+
+type c28pending struct {
+	at   time.Duration
+	peer int
+}
+
+func (m *monC28) Name() string { return "C28" }
+
+func (m *monC28) OnObs(w *World, o *Obs) {
+	switch o.Kind {
+	case "peersync.started":
+		m.startedAt = o.T
+		m.reqSends = map[int][]time.Duration{}
+		// after a restart the stored view must equal the reference (reload unchanged)
+		m.compareAll(w, "after-restart")
+	case "deliver":
+		if o.Node != 0 || (o.Msg.Type != MsgPoll && o.Msg.Type != MsgRequestPoll) {
+			return
+		}
+		n := w.Nodes[0]
+		if n.ext.PSync == nil {
+			return
+		}
+		var dto struct {
+			Version uint64 `json:"version"`
+			BO      int64  `json:"btc_swap_out_premium_rate_ppm"`
+		}
+		if json.Unmarshal(o.Msg.Payload, &dto) != nil {
+			return // undecodable: must not change the view
+		}
+		from := o.Msg.From
+		if n.Pol.IsPeerSuspicious(w.Nodes[from].Pubkey) {
+			return
+		}
+		r := m.ref[from]
+		if r == nil {
+			r = &refPeer{}
+			m.ref[from] = r
+		}
+		if r.has && dto.Version < r.version {
+			// a poll advertising a lower protocol version does not replace the stored capability
+			w.Probe("C28:lower-version-poll")
+		} else {
+			r.version, r.rate, r.has = dto.Version, dto.BO, true
+		}
+		r.lastObs = o.T
+		w.Probe("C28:poll-delivered")
+		m.pending = append(m.pending, c28pending{at: o.T, peer: from})
+	case "send":
+		if o.Node != 0 || o.Msg.Type != MsgRequestPoll {
+			return
+		}
+		n := w.Nodes[0]
+		to := o.Msg.To
+		if pv := n.PeerView(to); pv != nil {
+			return // known peer: polls/requests follow the poll cadence, not the request limit
+		}
+		if n.ext.disconnected[to] || !w.connectedTo(0, to) {
+			return // the rule is about unknown *connected* peers
+		}
+		if o.T-m.startedAt < 2*time.Second {
+			return // initial sync at start-up
+		}
+		l := m.reqSends[to]
+		if len(l) > 0 && o.T-l[len(l)-1] < 10*time.Minute-15*time.Second && !m.reconnectedSince(w, to, l[len(l)-1]) {
+			w.Violate("C28", "request-poll-rate-limit", "node 0 sent request_poll to the unknown connected peer %d at %v and again at %v (request interval 10 minutes, no reconnect, not forced)", to, l[len(l)-1], o.T)
+		}
+		m.reqSends[to] = append(l, o.T)
+		w.Probe("C28:request-to-unknown-peer")
+	case "op.ext":
+		// connect / disconnect
+	}
+	// settle pending comparisons a little after the delivery
+	if len(m.pending) > 0 && o.T-m.pending[0].at > 2*time.Second {
+		m.pending = nil
+		m.compareAll(w, "after-poll")
+	}
+}
+
+func (m *monC28) reconnectedSince(w *World, peer int, since time.Duration) bool {
+	for i, op := range w.Plan.Ops {
+		_ = i
+		if (op.Kind == "disconnect" || op.Kind == "crash" || op.Kind == "crash-setversion") && ms(op.AtMs) >= since && (op.Kind != "disconnect" || op.Peer == peer) {
+			return true
+		}
+	}
+	return false
+}
+
+func (m *monC28) connectedThroughout(w *World, peer int, from time.Duration) bool {
+	for _, op := range w.Plan.Ops {
+		if op.Kind == "disconnect" && op.Peer == peer && op.Node == 0 {
+			return false
+		}
+	}
+	return w.connectedTo(0, peer)
+}
+
+func (m *monC28) compareAll(w *World, when string) {
+	n := w.Nodes[0]
+	if n.ext.psStore == nil {
+		return
+	}
+	for peer, r := range m.ref {
+		if !r.has {
+			continue
+		}
+		pv := n.PeerView(peer)
+		w.Probe("C28:view-compared")
+		if pv == nil || pv.Capability() == nil {
+			// removal is legitimate only for an expired peer that is disconnected
+			if m.connectedThroughout(w, peer, r.lastObs) {
+				w.Violate("C28", "connected-peer-removed:"+when, "node 0 no longer stores peer %d (last poll at %v, now %v) although the peer was connected all the time", peer, r.lastObs, w.Sim.Now())
+			} else if w.Sim.Now()-r.lastObs < 30*time.Minute {
+				w.Violate("C28", "peer-removed-before-expiry:"+when, "node 0 no longer stores peer %d although its last poll was only %v ago", peer, w.Sim.Now()-r.lastObs)
+			} else {
+				r.has = false
+				w.Probe("C28:expired-disconnected-peer-removed")
+			}
+			continue
+		}
+		gotV := pv.Capability().Version().Value()
+		gotR := storedBtcOut(pv)
+		if gotV != r.version || gotR != r.rate {
+			w.Violate("C28", "stored-capability-differs:"+when, "node 0 stores version %d / marker rate %d for peer %d, its polls say version %d / rate %d (%s)", gotV, gotR, peer, r.version, r.rate, when)
+		}
+		compat := n.ext.PSync.HasCompatiblePeer(w.Nodes[peer].Pubkey)
+		if compat != (r.version == 7) {
+			w.Violate("C28", "compatibility-verdict", "HasCompatiblePeer(%d) = %v although its stored capability has protocol version %d", peer, compat, r.version)
+		}
+	}
+}
+
+func (m *monC28) Final(w *World) {
+	m.compareAll(w, "end")
+}
+
+func init() { _ = fmt.Sprint }
